@@ -954,10 +954,13 @@ class FunctionPlugin(PrimitivePlugin):
         handled_names.update(static_params.keys())
         literal_map = getattr(ctx, "_call_input_param_literals", None)
         if isinstance(literal_map, dict):
-            for pname in call_param_names:
-                if pname in handled_names:
+            # Iterate in the user's input_params order: call_param_names is a set of
+            # strings, whose order changes with the interpreter's hash seed and would
+            # otherwise decide the order of the model's graph inputs.
+            for pname in literal_map:
+                if pname not in call_param_names:
                     continue
-                if pname not in literal_map:
+                if pname in handled_names:
                     continue
                 accepts_param = False
                 target_fn = callee
